@@ -522,6 +522,44 @@ def trigB (inp : Input) : Bool :=
     | none => true
     | some l => (trigOf inp (inp.creatorOf l)).all (fun d => p.2.deps.contains d)
 
+/-- `RxWF`: a task of the initial table that belongs to a regex group (`loader.regex_groups.get(name)`) carries a
+    loader and has the group's command-line word among its file_deps (`_filter_tasks` builds it that way) -/
+def rxB (inp : Input) : Bool :=
+  inp.tasks0.all fun p =>
+    match p.2.rx with
+    | none => true
+    | some g => p.2.loader.isSome && p.2.fileDep.contains (inp.gtarget g)
+
+/-- names a creator yields when it is evaluated through loader object `l` carried by task `p` -/
+def yields (inp : Input) (p : Name) (l : LId) : List Name :=
+  (inp.make (inp.creatorOf l) (toLoad inp l p)).map (·.name)
+
+/-- the (task, loader object) pairs of the initial table -/
+def holders (inp : Input) : List (Name × LId) :=
+  inp.tasks0.filterMap fun p => p.2.loader.map fun l => (p.1, l)
+
+/-- `RedefWF`: no creator re-defines a task that may already have been handed to execution — a yielded name is new
+    or a placeholder of the same creator, the yields of different creators are disjoint, and `to_load` names a
+    placeholder of the same creator (the dispatcher without the pinned `once` defect) -/
+def noRedefB (inp : Input) : Bool :=
+  !inp.pinnedOnce &&
+  (holders inp).all fun q =>
+    ((yields inp q.1 q.2).all fun m =>
+       match lookup0 inp.tasks0 m with
+       | none => true
+       | some td =>
+         match td.loader with
+         | none => false
+         | some l0 => inp.creatorOf l0 == inp.creatorOf q.2) &&
+    ((holders inp).all fun q' =>
+       inp.creatorOf q.2 == inp.creatorOf q'.2 || (yields inp q.1 q.2).all fun m => !(yields inp q'.1 q'.2).contains m) &&
+    (match lookup0 inp.tasks0 (toLoad inp q.2 q.1) with
+     | none => false
+     | some tb =>
+       match tb.loader with
+       | none => false
+       | some l' => inp.creatorOf l' == inp.creatorOf q.2)
+
 /-! ### a default schedule (examples, `simulate`): the main thread runs whenever it can, otherwise the oldest running
     task finishes; sets are iterated in their stored order -/
 
